@@ -58,3 +58,22 @@ Example c04_nonvacuous :
   n_sec64 2016 1 32 25 61 (-1) = OK (mkF 2016 2 2 2 0 59) /\
   n_sec64 (max64 - 1) 24 1 0 0 0 = OK (mkF max64 12 1 0 0 0).
 Proof. vm_compute. split; reflexivity. Qed.
+
+(* ---- tie to the CURRENT source: the functions below are translated from clang's AST
+   of /repo on every run (coq/Translated.v); the model computes exactly them ---- *)
+From CCTZ Require Import Translated TranslatedProofs.
+Theorem src_tie_year_index : forall y m r, year_index64 y m = OK r -> r = tr_year_index y m.
+Proof. exact tr_year_index_eq. Qed.
+Print Assumptions src_tie_year_index.
+Theorem src_tie_days_per_century : forall yi, tr_days_per_century yi = days_per_century64 yi.
+Proof. exact tr_days_per_century_eq. Qed.
+Print Assumptions src_tie_days_per_century.
+Theorem src_tie_days_per_4years : forall yi, tr_days_per_4years yi = days_per_4years64 yi.
+Proof. exact tr_days_per_4years_eq. Qed.
+Print Assumptions src_tie_days_per_4years.
+Theorem src_tie_days_per_year : forall y m r, days_per_year64 y m = OK r -> r = tr_days_per_year y m.
+Proof. exact tr_days_per_year_eq. Qed.
+Print Assumptions src_tie_days_per_year.
+Theorem src_tie_days_per_month : forall y m r, days_per_month64 y m = OK r -> r = tr_days_per_month y m.
+Proof. exact tr_days_per_month_eq. Qed.
+Print Assumptions src_tie_days_per_month.
